@@ -106,7 +106,7 @@ func TestProp(t *testing.T) {
 	run := rt.Begin(t, "C08")
 	defer run.Finish()
 	rule := "every input the parser accepts among: generated programs of all constructs (break/continue in nested ifs and loops, all assignment forms nested in expressions, every dice family, templates, functions, computed values), generated program + broken tail, fixed GUIDE/test snippets incl. ^st forms, hostile-typing templates, byte mutations of those; parse only (jumps seeded with an 'unpatched' sentinel), then the data-flow verifier runs over the main program and every nested function/computed body. Non-trivial = accepted input whose code has >= 1 conditional jump and >= 1 block or call, or accepted input with non-blank rest; distinct by source text+flags"
-	run.Check("verify", 60000, 1200000, rule, func(t *rapid.T, s *rt.Section) {
+	run.Check("verify", 45000, 1000000, rule, func(t *rapid.T, s *rt.Section) {
 		c := Case{Cfg: vmx.DrawCfg(t, false)}
 		c.Cfg.NoStmts = rapid.IntRange(0, 9).Draw(t, "nostmt") == 0
 		c.Cfg.NoNDice = rapid.IntRange(0, 9).Draw(t, "nondice") == 0
